@@ -156,6 +156,14 @@ class World:
             os.makedirs(p)
             with open(os.path.join(p, "config.yml"), "w") as f:
                 f.write("models: []\ninstructions:\n  - type: general\n    content: \"marker rootc/%s\"\n" % d)
+        # part D: a configuration that a REAL LLMRails can serve (scripted LLM, fake embedding engine)
+        p = os.path.join(self.base, "rootd", "real")
+        os.makedirs(p)
+        os.makedirs(os.path.join(self.base, "rootd", "other"))
+        from vf.engines.world import EMB_YAML
+        for d in ("real", "other"):
+            with open(os.path.join(self.base, "rootd", d, "config.yml"), "w") as f:
+                f.write(EMB_YAML)
         self.loads = []
         self._saved = {
             "from_path": RailsConfig.__dict__["from_path"],
@@ -182,13 +190,14 @@ class World:
         api.app.default_config_id = None
         # let the server's own start-up code decide the mode for each root
         self.modes = {}
-        for mode, path in (("multi", self.root), ("single", os.path.join(self.root, "cfg1")), ("multic", os.path.join(self.base, "rootc"))):
+        for mode, path in (("multi", self.root), ("single", os.path.join(self.root, "cfg1")), ("multic", os.path.join(self.base, "rootc")),
+                           ("multid", os.path.join(self.base, "rootd"))):
             api.app.single_config_mode = False
             api.app.single_config_id = None
             api.app.rails_config_path = path
             asyncio.run(api.startup_event())
             self.modes[mode] = (path, api.app.single_config_mode, api.app.single_config_id)
-        if self.modes["multi"][1] or not self.modes["single"][1] or self.modes["multic"][1]:
+        if self.modes["multi"][1] or not self.modes["single"][1] or self.modes["multic"][1] or self.modes["multid"][1]:
             raise RuntimeError(f"HARNESS-ERROR: startup_event did not derive the expected modes: {self.modes}")
         self._client = None
         self._client_pid = None
@@ -925,6 +934,98 @@ def run_c(rep, tier, deadline):
     return done == len(tasks)
 
 
+# ------------------------------------------------------------------ part D: threads served by a REAL LLMRails instance
+# Parts A-C replace LLMRails by an echoing fake, so what the real generate_async does with the message list it is handed
+# (the list the server stores afterwards) is outside their reach.  Here the endpoint builds real LLMRails objects
+# (scripted LLM whose answer is a digest of the prompt); every sequence of <= 2 (quick) / 3 (thorough) requests over
+# D_ALPHABET; oracle as in part B: messages handed to generate_async = stored thread + new messages, stored afterwards =
+# that list + the returned reply, other threads untouched.
+D_ALPHABET = [("T1", ("m1",), None), ("T1", ("C", "m1"), None), ("T2", ("m2",), None), ("T1", ("C", "m2"), {"log": {"activated_rails": True}}),
+              ("T2", ("m1",), {"rails": {"output": False}}), ("none", ("C", "m1"), None)]
+_D_CALLS = []
+
+
+def _real_rails_class():
+    from nemoguardrails import LLMRails
+    from vf.engines.world import ScriptedLLM
+    import hashlib
+
+    class RealRails(LLMRails):
+        def __init__(self, config=None, verbose=False, **kw):
+            llm = ScriptedLLM()
+            llm.calls = []
+            llm.responder = lambda task, prompt, i: "REPLY-" + hashlib.sha1(prompt.encode()).hexdigest()[:8]
+            super().__init__(config, llm=llm, verbose=False)
+
+        async def generate_async(self, prompt=None, messages=None, options=None, state=None, streaming_handler=None):
+            _D_CALLS.append(copy.deepcopy(messages))
+            return await super().generate_async(prompt=prompt, messages=messages, options=options, state=state,
+                                                streaming_handler=streaming_handler)
+
+    return RealRails
+
+
+def d_task(seqs):
+    W = _W
+    W.set_mode("multid")
+    saved = W.api.LLMRails
+    W.api.LLMRails = _real_rails_class()
+    viols, n, steps = [], 0, 0
+    try:
+        for seq in seqs:
+            W.fresh_store()
+            W.reset_case()
+            model = {}
+            for i, (t, ms, opts) in enumerate(seq):
+                body = b_body((t, ms))
+                body["config_id"] = "real"
+                if opts is not None:
+                    body["options"] = copy.deepcopy(opts)
+                del _D_CALLS[:]
+                r = _post(body)
+                steps += 1
+                rp = {"part": "D", "sequence": [[a, list(b), c] for a, b, c in seq[:i + 1]]}
+                case = f"real LLMRails instance, request {i + 1} of {[(a, list(b), c) for a, b, c in seq[:i + 1]]}"
+                if r["kind"] != "reply" or len(r["messages"]) != 1:
+                    viols.append((f"thread:real-instance:request-failed:{r.get('type') or r.get('status') or 'reply-shape'}", f"{case}: {ascii(r)[:300]}", rp))
+                    break
+                reply = r["messages"][0]
+                used_e = (list(model.get(t, [])) if t != "none" else []) + _new_messages(ms)
+                if len(_D_CALLS) != 1 or _D_CALLS[0] != used_e:
+                    viols.append(("thread:real-instance:turn-input", f"{case}: generate_async was handed {ascii(_D_CALLS)[:300]}, expected the stored thread + new messages {ascii(used_e)[:300]}", rp))
+                    break
+                if t != "none":
+                    model[t] = used_e + [reply]
+                store = sorted((json.loads(v) for v in W.api.datastore.data.values()), key=lambda x: json.dumps(x, sort_keys=True))
+                exp = sorted(model.values(), key=lambda x: json.dumps(x, sort_keys=True))
+                if store != exp:
+                    mine = [v for v in store if v not in exp]
+                    viols.append(("thread:real-instance:stored-thread-is-not-history-plus-new-messages-plus-reply",
+                                  f"{case}: stored {ascii(mine)[:400]}; expected threads {ascii(exp)[:400]}", rp))
+                    break
+            n += 1
+    finally:
+        W.api.LLMRails = saved
+    return {"n": n, "steps": steps, "viols": viols}
+
+
+def run_d(rep, tier, deadline):
+    d = 2 if tier == "quick" else 3
+    seqs = [s for ln in range(1, d + 1) for s in itertools.product(D_ALPHABET, repeat=ln)]
+    chunk = max(1, len(seqs) // (par.NPROC * 2))
+    tasks = [seqs[i:i + chunk] for i in range(0, len(seqs), chunk)]
+    done = 0
+    for res in par.pmap(d_task, tasks, chunksize=1, deadline=deadline):
+        done += 1
+        rep.add("D_sequences_on_a_real_instance", res["n"])
+        rep.add("D_requests_on_a_real_instance", res["steps"])
+        rep.add("evaluations", res["steps"])
+        for sig, what, rp in sorted(res["viols"], key=lambda v: (len(v[2]["sequence"]), json.dumps(v[2]["sequence"]))):
+            _report(rep, sig, what, rp)
+    rep.set("D_depth", d)
+    return done == len(tasks)
+
+
 # ------------------------------------------------------------------ entry points
 def run(rep, tier):
     global _W
@@ -943,6 +1044,8 @@ def run(rep, tier):
             "deliberate GuardrailsConfigurationError raise; it is counted (A_no_id_*), not judged",
             "part C: root with the directories a, b, c, a-b, b-c; every sequence of <= 2 (quick) / 3 (thorough) requests over C_id_lists with the "
             "rails cache kept between the requests of a sequence; oracle = the answer of a server that has seen no other request",
+            "part D: the endpoint builds REAL LLMRails objects (scripted LLM, fake embedding engine) for the configuration rootd/real; every sequence of <= 2 (quick) / 3 (thorough) "
+            "requests over D_ALPHABET (threads T1/T2/none, context, per-request options); oracle of part B on the messages handed to generate_async and on the store",
             "part B: MemoryStore whose set() yields to the event loop for 2 ms before it writes (write latency); thread ids T1/T2 (T1 is a prefix of T2), `context` on one request form, one streamed request form (`stream: true`, the fake instance pushes the reply in two chunks); store compared by "
             "content (key naming is free)",
         ]
@@ -952,6 +1055,7 @@ def run(rep, tier):
         b_full = run_b_bfs(rep, d, t0 + budget * 0.9)
         f_full = run_b_fresh(rep, tier, d, t0 + budget)
         c_full = run_c(rep, tier, t0 + budget * 1.2)
+        c_full = run_d(rep, tier, t0 + budget * 1.4) and c_full
         la = rep.cov.get("A_ids_load_attempted_multi", 0) + rep.cov.get("A_ids_load_attempted_single", 0)
         eg = rep.cov.get("A_ids_escaping_and_guarded_multi", 0) + rep.cov.get("A_ids_escaping_and_guarded_single", 0)
         rep.set("distinct_nontrivial", la + eg + rep.cov.get("B_transitions_on_a_thread", 0))
